@@ -53,6 +53,36 @@ def run(seed=0, rounds=400):
         s = slice(int(rng.randint(-9, 10)), int(rng.randint(-9, 10)))
         st, sp, _ = s.indices(n)
         check('slice-indices', x[s].tolist() == [x[i] for i in range(st, max(st, sp))], x, (s.start, s.stop))
+        # pyvc/npext.py: nonzero, repeat, ufunc out= into slice / 0-d views, concatenate
+        st = rng.randint(-1, 3, size=n + 1)
+        nzp, = st.nonzero()
+        check('nonzero', (numpy.diff(nzp) > 0).all() and (st[nzp] != 0).all() and set(nzp.tolist()) == set(k for k in range(n + 1) if st[k] != 0) and len(nzp) <= n + 1, st, nzp)
+        cnts = rng.randint(-1 if rng.rand() < .2 else 0, 3, size=n)
+        try:
+            rep = numpy.repeat(x, cnts)
+            raised = False
+        except ValueError:
+            raised = True
+        check('repeat-raises-iff-negative-count', raised == bool((cnts < 0).any()), x, cnts)
+        if not raised:
+            off = [0]
+            for cj in cnts:
+                off.append(off[-1] + int(cj))
+            okr = len(rep) == off[-1] and all(off[i] <= off[j] for i in range(n + 1) for j in range(i, n + 1))
+            okr = okr and all(rep[p_] == x[j] for j in range(n) for p_ in range(off[j], off[j + 1]))
+            okr = okr and all(any(off[j] <= p_ < off[j + 1] and rep[p_] == x[j] for j in range(n)) for p_ in range(len(rep)))
+            check('repeat-blocks', okr, x, cnts, rep)
+        if n >= 1:
+            o = numpy.full(n + 1, 77)
+            numpy.add(x[0], 1, out=o[0, ...], dtype=o.dtype)
+            numpy.subtract(x[1:], x[:-1], out=o[1:-1], dtype=o.dtype)
+            numpy.subtract(5, x[-1], out=o[-1, ...], dtype=o.dtype)
+            check('ufunc-out-into-0d-and-slice-views', o[0] == x[0] + 1 and o[n] == 5 - x[-1] and all(o[k_] == x[k_] - x[k_ - 1] for k_ in range(1, n)), x, o)
+            check('fancy-take', (st[nzp] == numpy.array([st[k_] for k_ in nzp], dtype=int)).all(), st, nzp)
+        parts = [rng.randint(0, 9, size=rng.randint(0, 4)) for _ in range(rng.randint(1, 4))]
+        cat = numpy.concatenate(parts)
+        offs = numpy.cumsum([0] + [len(p_) for p_ in parts])
+        check('concatenate', len(cat) == offs[-1] and all(cat[offs[j] + i] == parts[j][i] for j in range(len(parts)) for i in range(len(parts[j]))), cat)
         fl = float(rng.choice([numpy.nan, numpy.inf, -numpy.inf, 0., 1., -2.5]))
         g = float(rng.choice([numpy.nan, numpy.inf, 0., 3.]))
         check('ieee-comparisons', (not (fl > g) if numpy.isnan(fl) or numpy.isnan(g) else True) and ((max(fl, g) == g) == (g > fl) or numpy.isnan(max(fl, g)) or fl == g), fl, g)
